@@ -43,6 +43,8 @@ const (
 	sslRequestCode = 80877103
 	// byte size of the message length field
 	initMessageSizeLength = 4
+	// largest startup packet PostgreSQL accepts (MAX_STARTUP_PACKET_LENGTH)
+	maxStartupPacketLength = 10000
 )
 
 // Message provides readers for various types and
@@ -61,6 +63,11 @@ func (b *message) ReadUint32() (r uint32) {
 func (b *message) ReadString() (r string) {
 	end := b.offset
 	maximum := uint32(len(b.data))
+	if end >= maximum {
+		// nothing left (the previous string ran to the end without a terminator)
+		b.offset = maximum
+		return ""
+	}
 	for ; end != maximum && b.data[end] != 0; end++ {
 	}
 	r = string(b.data[b.offset:end])
@@ -98,8 +105,13 @@ func (m *MatchPostgres) Match(cx *layer4.Connection) (bool, error) {
 		return false, err
 	}
 
-	// Get actual message length
-	data := make([]byte, binary.BigEndian.Uint32(head)-initMessageSizeLength)
+	// Get actual message length: it includes the length field itself and is followed by
+	// at least a 4-byte code; PostgreSQL does not accept startup packets above 10000 bytes
+	length := binary.BigEndian.Uint32(head)
+	if length < initMessageSizeLength+4 || length > maxStartupPacketLength {
+		return false, nil
+	}
+	data := make([]byte, length-initMessageSizeLength)
 	if _, err := io.ReadFull(cx, data); err != nil {
 		return false, err
 	}
